@@ -115,8 +115,14 @@ def r1_r2_init(repo, rep):
   casts = [n for n in g.nodes if n.kind == 'stmt' and isinstance(n.ast, ast.Assign) and re.search(r"(\.geo|\['geo'\])$", norm(n.ast.targets[0]))
            and re.search(r"astype\(('str'|str)\)", norm(n.ast.value))]
   pivots = [n for n in g.nodes if n.kind == 'stmt' and 'pivot_table(' in norm(n.ast) or (n.kind == 'stmt' and '.pivot(' in norm(n.ast))]
-  rep.check(bool(casts) and bool(pivots) and all(casts[0] in doms[p] for p in pivots), 'R1/ingestion-ids', 'geo IDs are cast to str before the pivot', f.qualname,
-            'astype(str) / pivot order', 'geo IDs are not converted to strings before the table is pivoted: integer and string IDs give different row labels', f.loc())
+  if not pivots:
+    rep.undecided('R1/ingestion-ids', 'geo IDs are cast to str before the pivot', 'the table is not built by pivot_table / pivot in the constructor: where the row labels come from is not followed', f.loc())
+  elif not casts and any(isinstance(c_, ast.Call) and isinstance(c_.func, ast.Attribute) and c_.func.attr in ('astype', 'map', 'apply') and re.search(r"\bstr\b", norm(c_))
+                         for c_ in ast.walk(f.module.tree)):
+    rep.undecided('R1/ingestion-ids', 'geo IDs are cast to str before the pivot', 'a conversion to str exists in the module, but not as an assignment to the geo column in the recognised form', f.loc())
+  else:
+    rep.check(bool(casts) and all(casts[0] in doms[p] for p in pivots), 'R1/ingestion-ids', 'geo IDs are cast to str before the pivot', f.qualname,
+              'astype(str) / pivot order', 'geo IDs are not converted to strings before the table is pivoted: integer and string IDs give different row labels', f.loc())
   # the pivot call
   pcall = None
   for n in pivots:
